@@ -1,2 +1,26 @@
-(* C19.  Theorems are added here as they are proved. *)
-From PJ.Model Require Import Base.
+(* C19 -- compression contract. *)
+From PJ.Model Require Import Base Lookup Terms Encoder.
+From PJ.Proofs Require Import EncoderProofs.
+
+(* A term equal to the previous statement's term in the same slot is omitted: no rows, no wire term,
+   encoder untouched. *)
+Theorem C19_repeated_term_elided :
+  forall (ig : integ) (tm : term) (prev : option term) (t : tenc),
+    differs prev tm = false -> encode_slot ig prev tm t = Ok (t, [], None, prev).
+Proof. exact repeated_term_elided. Qed.
+Print Assumptions C19_repeated_term_elided.
+
+(* No entry is produced for a string resident in the table. *)
+Theorem C19_resident_key_not_resent :
+  forall (k : str) (e e' : slenc) (oe : option N),
+    find str_eqb k (l_data (e_lookup e)) <> None -> encode_entry_index str_eqb k e = Some (e', oe) -> oe = None.
+Proof. exact resident_key_not_resent. Qed.
+Print Assumptions C19_resident_key_not_resent.
+
+(* An entry id is written explicitly only when it is not the sequential one. *)
+Theorem C19_sequential_entry_uses_zero :
+  forall (k : str) (e e' : slenc) (id : N),
+    encode_entry_index str_eqb k e = Some (e', Some id) ->
+    id = 0 \/ (id <> e_last_assigned e + 1 /\ id = e_last_assigned e').
+Proof. exact sequential_entry_uses_zero. Qed.
+Print Assumptions C19_sequential_entry_uses_zero.
